@@ -64,3 +64,34 @@ Proof. intros He Hs NE Hi F. unfold em_mechanism.
   assert (M : forall (l : list R) m, map (fun x => eps / (2 * sens) * (x - m)) l = map (fun x => eps / (2 * sens) * x) (map (fun x => x - m) l)) by (intros; now rewrite map_map).
   rewrite !M. rewrite !softmax_is_em by (rewrite ?map_length; auto; try congruence; destruct q, q'; simpl; congruence).
   rewrite !em_prob_shift by (auto; congruence). apply exponential_mechanism_eps_dp; auto. Qed.
+
+(* adaptive_grid.exponential_mechanism: as mst's, on the qualities shifted by their maximum *)
+Theorem em_adagrid_eps_dp q q' eps sens i : 0 <= eps -> 0 < sens -> q <> [] -> (i < length q)%nat ->
+  Forall2 (fun a b => Rabs (a - b) <= sens) q q' ->
+  nth i (em_adagrid RNum q eps sens false) 0 <= exp eps * nth i (em_adagrid RNum q' eps sens false) 0.
+Proof. intros He Hs NE Hi F. unfold em_adagrid.
+  assert (L : length q = length q') by (eapply F2_length; eauto).
+  assert (NE' : q' <> []) by (destruct F; congruence).
+  change (nmul RNum) with Rmult. change (ndiv RNum) with Rdiv. change (nsub RNum) with Rminus.
+  assert (C : lit RNum 1 2 * eps / sens = eps / (2 * sens)). { cbn [lit RNum]. unfold Rdiv. simpl. field. lra. }
+  rewrite C.
+  assert (M : forall (l : list R) m, map (fun x => eps / (2 * sens) * (x - m)) l = map (fun x => eps / (2 * sens) * x) (map (fun x => x - m) l)) by (intros; now rewrite map_map).
+  rewrite !M. rewrite !lse_probs_is_em by (rewrite ?map_length; auto; try congruence; destruct q, q'; simpl; congruence).
+  rewrite !em_prob_shift by (auto; congruence). apply exponential_mechanism_eps_dp; auto. Qed.
+(* mwem+pgm.worst_approximated: softmax(0.5*eps/sensitivity*(errors - max)), sensitivity = 2 under bounded adjacency else 1: eps-DP when every
+   error moves by at most that sensitivity *)
+Theorem em_mwem_eps_dp q q' eps (bounded : bool) i : 0 <= eps -> q <> [] -> (i < length q)%nat ->
+  Forall2 (fun a b => Rabs (a - b) <= (if bounded then 2 else 1)) q q' ->
+  nth i (em_mwem RNum q eps bounded) 0 <= exp eps * nth i (em_mwem RNum q' eps bounded) 0.
+Proof. intros He NE Hi F. unfold em_mwem.
+  assert (L : length q = length q') by (eapply F2_length; eauto).
+  assert (NE' : q' <> []) by (destruct F; congruence).
+  change (nmul RNum) with Rmult. change (ndiv RNum) with Rdiv. change (nsub RNum) with Rminus.
+  set (sens := if bounded then 2 else 1) in *.
+  assert (Hs : 0 < sens) by (unfold sens; destruct bounded; lra).
+  assert (C : lit RNum 1 2 * eps / (if bounded then lit RNum 2 1 else lit RNum 1 1) = eps / (2 * sens)).
+  { unfold sens. cbn [lit RNum]. destruct bounded; unfold Rdiv; simpl; field. }
+  rewrite C.
+  assert (M : forall (l : list R) m, map (fun x => eps / (2 * sens) * (x - m)) l = map (fun x => eps / (2 * sens) * x) (map (fun x => x - m) l)) by (intros; now rewrite map_map).
+  rewrite !M. rewrite !softmax_is_em by (rewrite ?map_length; auto; try congruence; destruct q, q'; simpl; congruence).
+  rewrite !em_prob_shift by (auto; congruence). apply exponential_mechanism_eps_dp; auto. Qed.
